@@ -370,51 +370,77 @@ def _one_model(res, rng, model, rep, with_fft, viol):
     a, b = (float(x) for x in cos._interval_a_b(t=T))
     u_last = (cos.n - 1) * np.pi / (b - a)
     decay = float(abs(model.log_characteristic_function(t=T, x=u_last)))
-    std = float(np.sqrt(model.cumulant.cumulant2(T)))
-    in_regime = decay <= DECAY and std <= 1.0
-    res.bump("regime", f"{name}: {'in' if in_regime else 'outside (not asserted)'}")
+    in_regime = decay <= DECAY
+    res.bump("regime", f"{name}: {'in' if in_regime else 'outside (compared with the widened tolerance)'}")
     res.bump("maturity", round(T, 4))
-    res.count((name, S, r, d, T, tuple(rep["params"].values())), nontrivial=in_regime, kind=f"model case {name}")
-    if not in_regime:
-        return
-    tol = TOL * S
+    res.count((name, S, r, d, T, tuple(rep["params"].values())), nontrivial=True, kind=f"model case {name}")
+    # outside the regime the series truncation error is not negligible: the same predicates are evaluated with the tolerance widened
+    # by the size of the neglected tail (~ n * |cf(u_N)| for a power-law decay); the density quadratures are skipped
+    rel = TOL if in_regime else TOL + 2e4 * decay
+    tol = rel * S
 
     def bad(what, **kw):
         viol(what, a=a, b=b, **kw, **rep)
 
-    ks = S * np.exp(np.linspace(a / 3, b / 3, 21))
-    call, put, dig, fw = cos.call(ks, T), cos.put(ks, T), cos.digital(ks, T), cos.forward(ks, T)
     df = float(model.df(t=T))
     fwd = float(S * model.mean(T))
-    if not all(np.all(np.isfinite(x)) for x in (call, put, dig, fw)):
-        bad("COS price is not finite")
-        return
-    # --- parity, forward
-    dev = np.abs((call - put) - df * (fwd - ks))
-    if np.any(dev > 1e-12 * np.maximum(S, ks)):
-        i = int(np.argmax(dev)); bad("put-call parity violated by the COS pricer", strike=float(ks[i]), deviation=float(dev[i]))
     if abs(fwd - S * math.exp((r - d) * T)) > 1e-9 * S:
         bad("forward differs from spot*exp((r-d)T)", forward=fwd)
-    # --- bounds
-    lo_c, lo_p = np.maximum(df * (fwd - ks), 0.0), np.maximum(df * (ks - fwd), 0.0)
-    for label, arr, lo, hi in (("call", call, lo_c, df * fwd + 0 * ks), ("put", put, lo_p, df * ks)):
-        v = np.maximum(lo - arr, arr - hi)
-        if np.any(v > tol):
-            i = int(np.argmax(v)); bad(f"{label} outside [intrinsic, bound]", strike=float(ks[i]), price=float(arr[i]), lower=float(lo[i]), upper=float(hi[i]), tol=tol)
-    # --- monotone, convex
-    if np.any(np.diff(call) > tol):
-        i = int(np.argmax(np.diff(call))); bad("call not decreasing in the strike", strike=float(ks[i]), tol=tol)
-    if np.any(np.diff(put) < -tol):
-        i = int(np.argmin(np.diff(put))); bad("put not increasing in the strike", strike=float(ks[i]), tol=tol)
-    lam = (ks[2:] - ks[1:-1]) / (ks[2:] - ks[:-2])
-    fly = lam * call[:-2] + (1 - lam) * call[2:] - call[1:-1]
-    if np.any(fly < -tol):
-        i = int(np.argmin(fly)); bad("call not convex in the strike", strike=float(ks[i + 1]), butterfly=float(fly[i]), tol=tol)
-    # --- digital
-    if np.any(dig < -TOL) or np.any(dig > df + TOL):
-        i = int(np.argmax(np.maximum(-dig, dig - df))); bad("digital price outside [0, df]", strike=float(ks[i]), price=float(dig[i]), df=df)
-    if np.any(np.diff(dig) > TOL):
-        i = int(np.argmax(np.diff(dig))); bad("digital price not decreasing in the strike", strike=float(ks[i]))
+
+    def ladder(ks, tag):
+        """the no-arbitrage predicates on one strike ladder; tag = None: hard failure, otherwise the id of the recorded finding"""
+        extra = {} if tag is None else dict(finding=tag, ladder="outer", log_moneyness=[float(np.log(ks[0] / S)), float(np.log(ks[-1] / S))])
+
+        def flag(what, i, **kw):
+            x = float(np.log(ks[i] / S))
+            bad(what, strike=float(ks[i]), log_moneyness_strike=x, range_fraction=float(x / b if x > 0 else x / a), **kw, **extra)
+
+        call, put, dig, fw = cos.call(ks, T), cos.put(ks, T), cos.digital(ks, T), cos.forward(ks, T)
+        if not all(np.all(np.isfinite(x)) for x in (call, put, dig, fw)):
+            flag("COS price is not finite", 0)
+            return None
+        dev = np.abs((call - put) - df * (fwd - ks))
+        if np.any(dev > 1e-12 * np.maximum(S, ks)):
+            i = int(np.argmax(dev)); viol("put-call parity violated by the COS pricer", a=a, b=b, strike=float(ks[i]), deviation=float(dev[i]), **rep)
+        lo_c, lo_p = np.maximum(df * (fwd - ks), 0.0), np.maximum(df * (ks - fwd), 0.0)
+        for label, arr, lo, hi in (("call", call, lo_c, df * fwd + 0 * ks), ("put", put, lo_p, df * ks)):
+            v = np.maximum(lo - arr, arr - hi)
+            if np.any(v > tol):
+                i = int(np.argmax(v)); flag(f"{label} outside [intrinsic, bound]", i, price=float(arr[i]), lower=float(lo[i]), upper=float(hi[i]), tol=tol)
+        if np.any(np.diff(call) > tol):
+            flag("call not decreasing in the strike", int(np.argmax(np.diff(call))), tol=tol)
+        if np.any(np.diff(put) < -tol):
+            flag("put not increasing in the strike", int(np.argmin(np.diff(put))), tol=tol)
+        lam = (ks[2:] - ks[1:-1]) / (ks[2:] - ks[:-2])
+        fly = lam * call[:-2] + (1 - lam) * call[2:] - call[1:-1]
+        if np.any(fly < -tol):
+            i = int(np.argmin(fly)); flag("call not convex in the strike", i + 1, butterfly=float(fly[i]), tol=tol)
+        if np.any(dig < -rel) or np.any(dig > df + rel):
+            i = int(np.argmax(np.maximum(-dig, dig - df))); flag("digital price outside [0, df]", i, price=float(dig[i]), df=df)
+        if np.any(np.diff(dig) > rel):
+            flag("digital price not decreasing in the strike", int(np.argmax(np.diff(dig))))
+        if name == "BLACKSCHOLES":
+            cf = CFBlackScholes(model)
+            cfc = np.array([float(cf.call(float(k), T)) for k in ks]); cfp = np.array([float(cf.put(float(k), T)) for k in ks])
+            for label, x, y, t in (("call", call, cfc, tol), ("put", put, cfp, tol), ("digital", dig, cf.digital(ks, T), rel)):
+                dv = np.abs(x - y)
+                if np.any(dv > t):
+                    i = int(np.argmax(dv)); flag(f"COS and the Black-Scholes closed form disagree ({label})", i, cos=float(x[i]), closed_form=float(y[i]), tol=t)
+            dv = np.abs((cfc - cfp) - np.array([float(cf.forward(float(k), T)) for k in ks]))
+            if np.any(dv > 1e-12 * np.maximum(S, ks)):
+                bad("closed-form put-call parity violated")
+        return call, put, dig, fw
+
+    # inner third of the truncation range: hard.  Outer ring up to 0.9*[a,b]: the window of the COS pricer is NOT shifted by
+    # log(S/K), so the accuracy degrades toward its edges -- recorded finding F-C18-5, matched by value in matches_known
+    ks = S * np.exp(np.linspace(a / 3, b / 3, 21))
+    inner = ladder(ks, None)
+    if inner is None:
+        return
+    call, put, dig, fw = inner
+    for side in (np.linspace(0.9 * a, a / 3, 8)[:-1], np.linspace(b / 3, 0.9 * b, 8)[1:]):
+        if np.all(np.abs(side) < 600):          # exp() of the strike itself must be representable
+            ladder(S * np.exp(side), "F-C18-5")
     # --- a used pricer instance quotes like a fresh one (several quotes on ONE instance above)
     fresh = COSPricer(model)
     if not (np.array_equal(fresh.digital(ks, T), dig) and np.array_equal(COSPricer(model).put(ks, T), put)
@@ -432,55 +458,10 @@ def _one_model(res, rng, model, rep, with_fft, viol):
           float(np.squeeze(cos.price(prod(Forward(strike=k0)))))]
     if any(abs(x - y) > 1e-12 * max(S, k0) for x, y in zip(pp, (sc[0], sc[1], sc[3]))):
         bad("COSPricer.price(product) differs from call/put/forward", strike=k0)
-    # --- density and cdf on a uniform log grid over the truncation range
-    x0 = float(model.x0_value())
-    # trapezoid on M+1 uniform log-points is exact for the cosine series up to aliasing of the terms k >= 2M: the grid is
-    # refined until |cf(u_2M)| <= 1e-7; if 4000 intervals do not resolve the density the two quadrature checks are skipped
-    M = next((m for m in (1000, 4000) if abs(model.log_characteristic_function(t=T, x=2 * m * np.pi / (b - a))) <= 1e-7), None)
-    res.bump("density_grid", f"{name}: {M or 'unresolved (integral/cdf not asserted)'}")
-    resolved = M is not None
-    M = M or 1000
-    us = np.linspace(x0 + a, x0 + b, M + 1)
-    dens = np.concatenate([cos.density_log(time=T, u=us[i:i + 125]) for i in range(0, M + 1, 125)])
-    if np.any(dens < -TOL):
-        i = int(np.argmin(dens)); bad("implied density negative beyond the tolerance", log_spot=float(us[i]), density=float(dens[i]))
-    h = us[1] - us[0]
-    total = float(h * (np.sum(dens) - (dens[0] + dens[-1]) / 2))
-    if resolved and abs(total - 1.0) > TOL:
-        bad("implied density does not integrate to one", integral=total, grid=M)
-    # cdf against the cumulative Simpson integral of the density (even nodes); asserted only where Simpson and the
-    # cumulative trapezoid agree to 1e-4 (then Simpson's own error is far below the 5e-4 tolerance)
-    simpson = np.concatenate([[0.0], np.cumsum(h / 3 * (dens[0:-2:2] + 4 * dens[1:-1:2] + dens[2::2]))])   # at nodes 0,2,4,...
-    trapez = np.concatenate([[0.0], np.cumsum((dens[1:] + dens[:-1]) / 2 * h)])[::2]
-    nodes = np.arange(M // 10, M - M // 10 + 1, M // 20)
-    cdf = cos.cdf(time=T, x=np.exp(us[nodes]))
-    if np.any(np.diff(cdf) < -TOL):
-        bad("COSPricer.cdf is not monotone")
-    if resolved and float(np.max(np.abs(simpson - trapez))) <= 1e-4:
-        devc = np.abs(cdf - simpson[nodes // 2])
-        if np.any(devc > 5e-4):
-            i = int(np.argmax(devc))
-            bad("COSPricer.cdf is not the integral of COSPricer.density", finding="F-C18-1", x=float(np.exp(us[nodes][i])), cdf=float(cdf[i]),
-                integrated_density=float(simpson[nodes // 2][i]), df=df, grid=M)
-    else:
-        res.bump("density_grid", f"{name}: cdf-vs-density not asserted (quadrature too coarse)")
-    # cdf end points (independent of any quadrature): ~0 at the lower end of the range, ~1 at the upper end
-    ends = cos.cdf(time=T, x=np.exp(np.array([x0 + 0.9 * a, x0 + 0.9 * b])))
-    if abs(float(ends[0])) > 1e-5 or abs(float(ends[1]) - 1.0) > 1e-5:
-        bad("COSPricer.cdf does not run from 0 to 1 over the truncation range", finding="F-C18-1", cdf_low=float(ends[0]), cdf_high=float(ends[1]), df=df)
-    # --- closed form (Black-Scholes)
+    if in_regime:
+        _density_checks(res, model, cos, rep, a, b, df, bad)
     kf = S * np.exp(np.linspace(max(a / 3, -0.7), min(b / 3, 0.7), 11))
     cosf = cos.call(kf, T)
-    if name == "BLACKSCHOLES":
-        cf = CFBlackScholes(model)
-        cfc = np.array([float(cf.call(float(k), T)) for k in ks]); cfp = np.array([float(cf.put(float(k), T)) for k in ks])
-        for label, x, y, t in (("call", call, cfc, tol), ("put", put, cfp, tol), ("digital", dig, cf.digital(ks, T), TOL)):
-            dv = np.abs(x - y)
-            if np.any(dv > t):
-                i = int(np.argmax(dv)); bad(f"COS and the Black-Scholes closed form disagree ({label})", strike=float(ks[i]), cos=float(x[i]), closed_form=float(y[i]), tol=t)
-        dv = np.abs((cfc - cfp) - np.array([float(cf.forward(float(k), T)) for k in ks]))
-        if np.any(dv > 1e-12 * np.maximum(S, ks)):
-            bad("closed-form put-call parity violated")
     # --- FFT
     if with_fft:
         res.bump("fft", name)
